@@ -184,6 +184,12 @@ def run_case(tier, seed, i):
             obj = rel[0]
             counters["json_rebuilt"] += 1
             tags.append("json_rebuilt")
+    if rng.random() < 0.5 and obj.features:
+        # transform must follow values_orders whatever read-only views were consulted before
+        common.guarded(obj.summary)
+        if rng.random() < 0.5:
+            common.guarded(obj.history)
+        tags.append("views_consulted_first")
     tags.append("dtype_" + str(obj.output_dtype))
     tags.append("dropna_" + str(obj.dropna))
     out, e = common.guarded(obj.transform, case.X)
